@@ -77,6 +77,13 @@ theorem closedAtOf_frame {bs : Bytes} (hb : okBegin bs = true) (fs : List Fld) (
   congr 1
   omega
 
+theorem waitCk_frame {bs : Bytes} (hb : okBegin bs = true) {f : Bytes} (hwf : WFFrame bs f)
+    (rest : Bytes) : waitCk (f ++ rest) = false := by
+  obtain ⟨fs, rfl, hok, _⟩ := hwf
+  unfold waitCk
+  rw [closedAtOf_frame hb fs hok]
+  simp
+
 theorem cutOf_frame {bs : Bytes} (hb : okBegin bs = true) (fs : List Fld) (hok : okFields fs = true)
     (rest : Bytes) : cutOf (mkFrame bs fs ++ rest) = (mkFrame bs fs).length := by
   unfold cutOf
@@ -142,7 +149,9 @@ theorem decode_frame_alone {bs : Bytes} {tbl : Tbl} {f : Bytes} {m : Msg} (hb : 
   have hfm : findSub marker f = some 0 := by
     simpa using findSub_marker_junk (g := []) NoMarker_nil (WFFrame_marker hb hwf)
   rw [hfm] at hd
-  simp only [List.drop_zero] at hd
+  have hw := waitCk_frame hb hwf []
+  simp only [List.append_nil] at hw
+  simp only [List.drop_zero, hw, Bool.false_eq_true, if_false] at hd
   have := take_cutOf_frame hb hwf []
   simp only [List.append_nil] at this
   rw [this] at hd
@@ -155,7 +164,7 @@ theorem decode_frame_ctx {bs : Bytes} {tbl : Tbl} {f g : Bytes} {m : Msg} (hb : 
   obtain ⟨f0, f1, r, ml, _, _, _, _, hn, _, htr⟩ := decodeTail_msg_inv (decode_frame_alone hb hwf hd).choose_spec
   have hml : ml = f.length := by omega
   rw [decode_eq, findSub_marker_junk hg ((WFFrame_marker hb hwf).trans (List.prefix_append _ _))]
-  simp only [List.drop_left, take_cutOf_frame hb hwf]
+  simp only [List.drop_left, take_cutOf_frame hb hwf, waitCk_frame hb hwf, Bool.false_eq_true, if_false]
   rw [htr _ _ _ (by simp only [List.length_append]; omega), hml]
 
 /-- (3) junk + a proper prefix of a frame that already shows the marker: wait, keeping the prefix -/
@@ -169,6 +178,8 @@ theorem decode_frame_prefix {bs : Bytes} {tbl : Tbl} {f g p : Bytes} {m : Msg} (
     List.prefix_of_prefix_length_le (WFFrame_marker hb hwf) hp (by rw [marker_length]; exact h6)
   rw [decode_eq, findSub_marker_junk hg hmp]
   simp only [List.drop_left]
+  split
+  · rfl
   have hfew : fewOf g.length p = g.length := by
     obtain ⟨fs, rfl, hok, _⟩ := hwf
     unfold fewOf
